@@ -4,7 +4,8 @@
        (all modes, all forms) — the list the invariants have to exclude;
      * C01_typed_subst / C01_typed_weaken / C01_preservation / C01_no_error_async : the structural
        run-time typing (spec/RtTyping.v) is preserved by every asynchronous step and excludes EVERY
-       run-time error, for the linear connective fragment {1, ⊗, ⊸, ⊕, &, ↓, ↑, cut, id, call, print}
+       run-time error, for the connectives with weakening {1, ⊗, ⊸, ⊕, &, ↓, ↑, cut, id, call, print,
+       drop — with the droppable forwards and GC requests the interpreter creates for it}
        (premises: `teq_laws` for the type equality, the function table is typed, nobody uses a closed
        channel — the part of Topo that typing cannot give);
      * C01_initial_typed : the initial configuration of a statically typed program is typed;
@@ -13,8 +14,8 @@
      * C01_safety_partial : no schedule of an accepted program of the fragment reaches an error in
        asynchronous or synchronous mode — premises: teq_ok, tc_annotations_typed, topo_reachable
        (see proofs/RtTheorems.v).
-   NOT proved: `safety_statement` (all forms incl. drop / split / DUP / GC, and the non-polarized
-   mode): covered by the correspondence run only. *)
+   NOT proved: `safety_statement` (contraction: split / DUP / several provider names; and the
+   non-polarized mode): covered by the correspondence run only. *)
 From stdpp Require Import gmap strings.
 Require Import Grits.Base Grits.ModeDefs Grits.Modes Grits.STypes Grits.Forms Grits.Subst Grits.TcDeps Grits.Expand
                Grits.Tc Grits.TcTop Grits.Runtime Grits.spec.RtTyping Grits.spec.Topo
@@ -82,14 +83,18 @@ Proof. exact safety_partial. Qed.
 (* non-vacuity: a concrete accepted program of the fragment (cut, call, ⊗, ⊸, 1, print) runs to
    quiescence without error, prints both labels and leaves no process — first-enabled and
    last-enabled schedules *)
-Example C01_example_in_fragment : example_in_fragment.
-Proof. vm_compute. repeat (split || constructor || eexists). Qed.
+Example C01_example_in_fragment : example_in_fragment /\ example_drop_in_fragment.
+Proof. split; vm_compute; repeat (split || constructor || eexists). Qed.
 
 Example C01_example_runs :
   run_example Async (fun _ _ => 0%nat) = Some (0%nat, ["served"; "done"], true) /\
   run_example Async (fun _ n => pred n) = Some (0%nat, ["served"; "done"], true) /\
   (* synchronous: the top-level provider stays blocked offering its result *)
-  run_example Sync (fun _ _ => 0%nat) = Some (1%nat, ["served"; "done"], true).
+  run_example Sync (fun _ _ => 0%nat) = Some (1%nat, ["served"; "done"], true) /\
+  (* drop: the dropped provider and the process it alone depended on are reclaimed *)
+  run_example_drop Async (fun _ _ => 0%nat) = Some (0%nat, ["dropped"], true) /\
+  run_example_drop Async (fun _ n => pred n) = Some (0%nat, ["dropped"], true) /\
+  run_example_drop Sync (fun _ _ => 0%nat) = Some (1%nat, ["dropped"], true).
 Proof. repeat split; vm_compute; reflexivity. Qed.
 
 Print Assumptions C01_step_error_inv.
